@@ -57,6 +57,10 @@ pub enum Error {
         expected: RangeType,
     },
     ExplicitDefaultInDefault(KeyPath),
+    DuplicateKey {
+        locale: Key,
+        key_path: KeyPath,
+    },
     RecursiveForeignKey {
         locale: Key,
         key_path: KeyPath,
@@ -208,6 +212,7 @@ impl Display for Error {
             },
             Error::RangeNumberType { found, expected } => write!(f, "number type {} can't be used for range type {}", found, expected),
             Error::ExplicitDefaultInDefault(key_path) => write!(f, "Explicit defaults (null) are not allowed in default locale, at key \"{}\"", key_path),
+            Error::DuplicateKey { locale, key_path } => write!(f, "Duplicate key \"{}\" in locale {:?}: a key can only be defined once in an object (keys are compared without surrounding whitespaces).", key_path, locale),
             Error::RecursiveForeignKey { locale, key_path } => write!(f, "Borrow Error while linking foreign key at key \"{}\" in locale {:?}, check for recursive foreign key.", key_path, locale),
             Error::MissingForeignKey { foreign_key, locale, key_path } => write!(f, "Invalid foreign key \"{}\" at key \"{}\" in locale {:?}, key don't exist.", foreign_key, key_path, locale),
             Error::InvalidForeignKey { foreign_key, locale, key_path } => write!(f, "Invalid foreign key \"{}\" at key \"{}\" in locale {:?}, foreign key to subkeys are not allowed.", foreign_key, key_path, locale),
